@@ -23,8 +23,8 @@ open Std
 namespace DD.S
 
 /-! ### local copies of three lemmas of DDProofs.Reach
-(`DDProofs.Reach` and `DDProofs.SiftFinal` both define `DD.den_of_denN`, so no file can import
-both; this file needs C07) -/
+(written when `DDProofs.Reach` and `DDProofs.SiftFinal` both defined `DD.den_of_denN`; the names are
+disjoint now — DDProps/All.lean — and the copies are kept under their own names) -/
 
 theorem OrderOK.congr_auto {t t' : Tbl} (h : OrderOK t) (hv : t'.vars = t.vars) (hl : t'.l2v = t.l2v) :
     OrderOK t' := by
@@ -100,13 +100,13 @@ theorem heldExt_of_kept {m m' : Mgr} (hI : Inv m) (h : Kept m m') (ext : Nat →
   obtain ⟨hm, hd⟩ := h.den hI u hu
   exact ⟨hm, fun σ => denN_of_same_l2v h.frame.l2v u σ hd⟩
 
-theorem MInv.of_kept {off : Bool} {ext : Nat → Nat} {m m' : Mgr} (h : MInv off ext m) (k : Kept m m')
-    (hr : RefExact m' ext) : MInv off ext m' :=
+theorem AutoMInv.of_kept {off : Bool} {ext : Nat → Nat} {m m' : Mgr} (h : AutoMInv off ext m) (k : Kept m m')
+    (hr : RefExact m' ext) : AutoMInv off ext m' :=
   ⟨k.inv, h.order.congr_auto k.frame.vars k.frame.l2v, hr, by rw [k.frame.ctx]; exact h.ctx,
    by rw [k.frame.roots]; exact h.roots,
    h.mode.transfer k.frame.lastLen (by rw [Mgr.nvars, Mgr.nvars, k.ext.nvars]; exact Nat.le_refl _)⟩
 
-theorem MInv.lite {ext : Nat → Nat} {m : Mgr} (h : MInv true ext m) : Lite ext m :=
+theorem AutoMInv.lite {ext : Nat → Nat} {m : Mgr} (h : AutoMInv true ext m) : Lite ext m :=
   h.inv.lite h.counts (h.mode.1 rfl)
 
 /-- `Kept` for every state with exact counts and reordering not enabled, plus exact counts
@@ -121,7 +121,7 @@ theorem keepsAtOff_of {α : Type} {op : M α} {m : Mgr}
   rw [h2] at k r'
   exact ⟨hm.of_kept k r', heldExt_of_kept hm.inv k ext⟩
 
-/-- `MInv true` without the flag (inside a decorated call the flag is set) -/
+/-- `AutoMInv true` without the flag (inside a decorated call the flag is set) -/
 structure MInvC (ext : Nat → Nat) (m : Mgr) : Prop where
   inv : Inv m
   order : OrderOK m.tbl
@@ -129,7 +129,7 @@ structure MInvC (ext : Nat → Nat) (m : Mgr) : Prop where
   roots : m.roots = []
   off : m.lastLen = none
 
-theorem MInv.toC {ext : Nat → Nat} {m : Mgr} (h : MInv true ext m) : MInvC ext m :=
+theorem AutoMInv.toC {ext : Nat → Nat} {m : Mgr} (h : AutoMInv true ext m) : MInvC ext m :=
   ⟨h.inv, h.order, h.counts, h.roots, h.mode.1 rfl⟩
 
 /-! ### the decorated operations, ARBITRARY arguments, reordering not enabled -/
@@ -553,7 +553,7 @@ theorem Good.keeps {α : Type} {x : M α} (h : Good x) : CoreKeeps true x := by
 /-- `BDD.cube(dvars)` for ANY names, reordering not enabled -/
 theorem cube_keepsOff (d : List (String × Bool)) : CoreKeeps true (cube d) := (cube_good d).keeps
 
-theorem addVar_good (name : String) : Good (addVar name none) := by
+theorem addVar_autoGood (name : String) : Good (addVar name none) := by
   intro m ext hm
   obtain ⟨a, b, c, d, e, f, g, h, n, _⟩ := addVar_effect m ext hm.inv hm.order hm.counts name none
     (fun l hl => nomatch hl)
@@ -563,7 +563,7 @@ theorem addVar_good (name : String) : Good (addVar name none) := by
 theorem declare_keepsOff (names : List String) : CoreKeeps true (declare names) := by
   apply Good.keeps
   unfold declare
-  exact Good.bind (Good.forIn _ (fun v _ => Good.bind (addVar_good v) fun _ => Good.pure _) names _)
+  exact Good.bind (Good.forIn _ (fun v _ => Good.bind (addVar_autoGood v) fun _ => Good.pure _) names _)
     fun _ => Good.pure _
 
 /-! ### the autoref methods, reordering not enabled: no hypothesis left -/
